@@ -13,6 +13,14 @@ LANG_NOTE = ("Trusted: Coq kernel + vm_compute; harness/ir.py (openqasm3 AST -> 
              "outcomes, emitted statements, counts and depth compared exactly). Arrays are not modelled (cases counted as "
              "unmodelled). ")
 
+MOD_NOTE = ("Trusted: Coq kernel + vm_compute; harness/ir.py, harness/modcorr.py, harness/modcheck.py; the openqasm3 parser/printer (dumps is compared "
+            "after re-loading and unrolling, never as text); coq/Lang/Unroll.v as the meaning of 'unroll' inside the machine (tied to the code by the language-layer checks). "
+            "The abstract machine coq/Module/ModuleSpec.v with the pure transformation functions of coq/Module/Transforms.v IS the specification (DESIGN appendix B); the theorems are about it. "
+            "base.py itself is tied to the machine by the correspondence: every output of every call of generated call histories (transformations with in_place True/False, copy, "
+            "validate/unroll/depth, counts, flags, dumps) on real modules is compared with the machine's, inside the stated envelope (no qubit-restricted gphase / empty if-block in the "
+            "unrolled program -- both known C03 findings --, at least one top-level gate, has_* only where the textual and inlined readings of 'contains' agree). "
+            "A heap-level model of base.py (object sharing between statement lists) is not part of the proof; sharing defects are visible only through the histories. ")
+
 CLAIMED = {
     "C05": dict(
         engine="coq-gates",
@@ -44,6 +52,34 @@ CLAIMED = {
         text="Theorems, for every event list of any length: no chain of operations pairwise-consecutively sharing a qubit or bit is longer than the computed depth, and some chain attains it (per resource and for the circuit maximum); the visitor model's updates for a library-gate group, a barrier statement, a reset and a measurement pair are exactly that recurrence step on the event they stand for (measurement synchronises qubit and target bit). Tie: the model's depth and real depth() are compared exactly on random circuits (basis and library gates, broadcast, custom gates, pow, loops, subroutines, measurement-conditioned blocks); independently the Gallina specification computes the critical path of the reference trace (one step per source-level library-gate application, measurement, reset, barrier statement) and must equal depth(). History independence is exercised by random interleavings of validate/unroll/depth/queries before depth().",
         ref="DESIGN.md §3.4, §6/C09",
         note=LANG_NOTE + "The statement 'the event stream of an arbitrary program is one event per source-level operation' is by construction of the model/specification and is tied to the code by the correspondence, not proved as a refinement theorem. History independence across transformations is the module layer's (C16) business; here only non-transforming histories are explored."),
+    "C10": dict(engine="coq-module",
+        technique="Coq theorems on the abstract machine of the module API (answers are functions of the current program; queries transparent in any history) + exact correspondence of real call histories with the machine",
+        text="Theorems: every count/flag/depth/validate answer of the machine depends on the current program only; validate/unroll/depth/queries keep the program, so repeating them in any number and order, interleaved with transformations of any module, changes no answer (the final world equals that of the history with the queries deleted); after remove_measurements/remove_barriers no statement of the kind is left at any depth; num_qubits after remove_idle_qubits is the number of declared qubits that are used; reversal and population keep the register tables. Tie: call histories that query counts and flags twice before and after every transformation, on every module, run on real pyqasm and on the machine.",
+        ref="DESIGN.md §3.5, §6/C10, Appendix B", note=MOD_NOTE),
+    "C11": dict(engine="coq-module",
+        technique="Coq theorems about the pure function remove_idle (order-preserving bijective renumbering onto initial segments, no idle qubit remains, frame) + correspondence of remove_idle_qubits histories with the machine",
+        text="Theorems for every flat program with literal declarations: no declared qubit of the result is idle; every used qubit is kept inside its shrunk register; survivors are renumbered injectively, in their original order, onto 0..k-1 (rank_onto); registers keep as many qubits as were used and empty ones are undeclared; every operation, also inside conditional blocks, refers to the renumbered qubit; classical registers, order/kind/parameters of operations unchanged; num_qubits = number of used declared qubits. Tie: remove_idle_qubits (in place or not, after validate/unroll/depth/queries, repeated) on programs with idle qubits in every position, compared output by output with the machine.",
+        ref="DESIGN.md §6/C11", note=MOD_NOTE),
+    "C12": dict(engine="coq-module",
+        technique="Coq theorems about the pure function reverse_qubits (involution, operand map i -> size-1-i at every depth, frame) + correspondence of reverse_qubit_order histories with the machine",
+        text="Theorems for every program: reverse_qubits is an involution; the n-th statement's qubits (also inside conditional blocks) are those of the original mapped by i -> size-1-i of the same register; declarations, classical operands, parameters, order and length unchanged. Tie: reverse_qubit_order once and twice, with unroll in between, in place or not, on programs with decomposed gates (shared operand objects), gates across registers of different sizes, nested blocks.",
+        ref="DESIGN.md §6/C12", note=MOD_NOTE),
+    "C13": dict(engine="coq-module",
+        technique="Coq theorems about populate (appends exactly one id per idle qubit, no idle afterwards, idempotent) + correspondence of populate_idle_qubits histories with the machine",
+        text="Theorems for every flat program: populate appends map id_gate (idle_qubits p) and leaves the prefix untouched; idle = declared and touched by no operation at any depth; afterwards no qubit is idle; a second call adds nothing; registers unchanged; after remove_idle there is nothing to populate. Tie: populate_idle_qubits after validate/unroll/other transformations, once and twice, followed by remove_idle_qubits, on programs that use qubits only in later loop iterations, subroutines or conditionals.",
+        ref="DESIGN.md §6/C13", note=MOD_NOTE + "That an id gate acts as the identity is C05's theorem for `id`; 'the circuit's action is unchanged' is not restated here."),
+    "C14": dict(engine="coq-module",
+        technique="Coq theorems about remove_kind (nothing of the kind left at any depth; the other leaf statements and the block structure are exactly preserved) + correspondence of remove_* histories with the machine",
+        text="Theorems for every program and nesting depth: after remove_kind k no statement of kind k remains; the remaining leaf statements are exactly the leaf statements not of kind k, in order and untouched; conditions, loop headers and definitions are unchanged; a program without the kind is returned unchanged; idempotent; the machine's has_* answer afterwards is false. Tie: each remover before/after unroll/validate/queries, in place or not, followed by the flag, depth and dumps, on programs with measurements/barriers/includes at every nesting position.",
+        ref="DESIGN.md §6/C14", note=MOD_NOTE + "depth() after removal equals the depth of the remaining circuit by construction of the machine (depth is computed from the current program) and is compared on every history."),
+    "C15": dict(engine="coq-module",
+        technique="Coq theorems on the machine (a non-in-place call leaves the world as it was and appends the in-place effect on a copy; calls on one module never change another) + two-module call histories against real pyqasm",
+        text="Theorems for every world and call: with in_place=False or copy() the existing modules are exactly what they were and the new module is what the in-place call makes of a copy; a call on module i never changes module j. Tie: histories that create modules by every transformation with in_place=False and by copy(), then call transformations and queries on either module, and observe every module at the end.",
+        ref="DESIGN.md §6/C15", note=MOD_NOTE),
+    "C16": dict(engine="coq-module",
+        technique="Coq theorems on the machine (run of a concatenation is the composition of runs; queries transparent; pure effects commute/idempotent) + exhaustive pairs/triples and random call sequences against real pyqasm",
+        text="Theorems: the machine's run over h1++h2 is the composition of its runs; validate/depth/queries/dumps anywhere change nothing; unroll keeps the program; remove/populate idempotent, reverse involutive, populate after remove_idle is the identity; calls on other modules do not matter. Tie: every ordered pair (thorough: triple) of in-place transformations with and without an interleaved query, and random sequences up to length 8 (12) over one or several modules.",
+        ref="DESIGN.md §6/C16", note=MOD_NOTE),
 }
 
 ORDER = ["C%02d" % i for i in range(1, 21)]
@@ -73,6 +109,8 @@ m = {
     "engines": [
         {"name": "coq-gates", "path": "coq/Gates", "serves_properties": ["C05", "C06"],
          "kind_free_text": "Coq 8.16.1: symbolic cyclotomic-Laurent ring, reflection-based decision procedure with soundness theorem into R; model regenerated from maps.py by translator/maps2coq.py"},
+        {"name": "coq-module", "path": "coq/Module", "serves_properties": [p for p in ORDER if p in CLAIMED and CLAIMED[p]["engine"] == "coq-module"],
+         "kind_free_text": "Coq 8.16.1: abstract machine of the module API + pure transformation functions with theorems; correspondence by generated call histories evaluated with vm_compute against real pyqasm modules"},
         {"name": "coq-lang", "path": "coq/Lang", "serves_properties": [p for p in ORDER if p in CLAIMED and CLAIMED[p]["engine"] == "coq-lang"],
          "kind_free_text": "Coq 8.16.1: executable model of the visitor (Unroll.v) with theorems; correspondence by generated case files evaluated with vm_compute against real pyqasm"},
     ],
